@@ -266,7 +266,8 @@ def main():
     lean_map = {"tree_induction": ("Lemmas.lean", ["tree_induction", "all_nodes_below_root"]), "count-of-a-singleton-mask": ("Lemmas.lean", ["count_singleton"]),
                 "cumsum-of-nonnegatives": ("Lemmas.lean", ["cumsum_monotone"]), "count-of-two-marked-positions": ("Lemmas.lean", ["count_monotone", "count_two"]),
                 "traverse client rule": ("TraverseRule.lean", ["inv_of_reach", "traverse_rule_sound"]),
-                "whitespace-token lemma": ("Tokens.lean", ["token_split_unique", "tokens_unique"])}
+                "whitespace-token lemma": ("Tokens.lean", ["token_split_unique", "tokens_unique"]),
+                "counting lemma": ("Count.lean", ["count_skips", "count_counts"])}
     used_files = {}
     for a_ in assumptions:
         if a_.startswith("assumed-lemma:"):
